@@ -543,22 +543,55 @@ func valEqual(a, b any) bool {
 }
 
 func c08Content(res *explore.Result, lp *litParser, content string, verbose bool) {
+	c08ContentAt(res, lp, content, 0, verbose)
+	if len(content) <= 3 {
+		// short strings also with the file at other places of a file set (incl. a reader created before the file was added)
+		for pi := 1; pi < len(placements); pi++ {
+			c08ContentAt(res, lp, content, pi, false)
+		}
+	}
+}
+
+func c08ContentAt(res *explore.Result, lp *litParser, content string, pi int, verbose bool) {
 	raw := []byte(content)
 	d := bytes.Replace(raw, []byte("\r\n"), []byte("\n"), -1)
-	fs, _, r, base := place(placements[0], "f", raw)
+	fs, _, r, base := place(placements[pi], "f", raw)
 	ctx := parsley.NewContext(fs, r)
 	n := len(d)
+	// results of the first pass over the offsets; a second pass on the same file and context must repeat them
+	// (parsing must not change the file it reads)
+	first := make([]string, n+1)
+	defer func() {
+		for o := 0; o <= n; o++ {
+			var node parsley.Node
+			var err parsley.Error
+			if pm := guard(func() { node, _, err = lp.p.Parse(ctx, data.EmptyIntMap, parsley.Pos(base+o)) }); pm != "" {
+				continue
+			}
+			if got := c08Show(node, err, base); got != first[o] && first[o] != "" {
+				res.Violate("second-parse-differs:"+lp.name, fmt.Sprintf("%s on %s at offset %d: the first parse gave %s, parsing the same bytes again gives %s", lp.name, q(content), o, first[o], got), c08Case{lp.name, strconv.Quote(content)})
+				return
+			}
+		}
+	}()
 	cs := c08Case{lp.name, strconv.Quote(content)}
+	if pi > 0 {
+		cs.Parser = lp.name // the replay runs every placement for short strings
+	}
 	for o := 0; o <= n; o++ {
 		exp := lp.scan(d, o)
 		res.Add("transitions", 1)
 		var node parsley.Node
 		var err parsley.Error
 		where := fmt.Sprintf("%s on %s at offset %d", lp.name, q(content), o)
+		if pi > 0 {
+			where += " (file " + placements[pi].name + ")"
+		}
 		if pm := guard(func() { node, _, err = lp.p.Parse(ctx, data.EmptyIntMap, parsley.Pos(base+o)) }); pm != "" {
 			res.Violate("panic:"+lp.name, where+": panic: "+pm, cs)
 			continue
 		}
+		first[o] = c08Show(node, err, base)
 		if (node == nil) == (err == nil) {
 			res.Violate("node-xor-error:"+lp.name, fmt.Sprintf("%s: returned node=%v and error=%v (exactly one must be set)", where, node, err), cs)
 			continue
@@ -594,6 +627,16 @@ func c08Content(res *explore.Result, lp *litParser, content string, verbose bool
 			res.Notes = append(res.Notes, fmt.Sprintf("offset %d: expected %+v; got node=%v err=%v", o, exp, node, err))
 		}
 	}
+}
+
+func c08Show(node parsley.Node, err parsley.Error, base int) string {
+	if err != nil {
+		return fmt.Sprintf("error %q at %d", err.Error(), int(err.Pos())-base)
+	}
+	if node == nil {
+		return "nil"
+	}
+	return fmt.Sprintf("%s<%d,%d>=%#v", node.Token(), int(node.Pos())-base, int(node.ReaderPos())-base, valueOf(node))
 }
 
 func valueOf(n parsley.Node) any {
